@@ -42,6 +42,9 @@ def run_rt(doc, fmt, opts, voc):
         elif fmt == "provn":
             import lex_provn
             res["ast"] = lex_provn.lex(text, voc)
+        elif fmt == "rdf":
+            import lex_rdf
+            res["ast"] = lex_rdf.lex(text, voc)
     except Exception as e:
         res["exc"] = "lex:" + type(e).__name__
         res["lexerr"] = str(e)[:200]
